@@ -67,6 +67,54 @@ def run_check(prop, scratch, runs, tier):
     return p.returncode, cls, round(time.time() - t0, 1), out
 
 
+def benign(args):
+    """<src>/<name>/{patch.diff, selfcheck.py, meta.json}: apply, suite must be the baseline,
+    selfcheck must exit 0, and all three checks must exit 0."""
+    alarms = 0
+    base_failed = None
+    for name in sorted(os.listdir(args.src)):
+        d = os.path.join(args.src, name)
+        if not os.path.exists(os.path.join(d, "patch.diff")):
+            continue
+        ident = f"{args.prefix}-{name}"
+        scratch = scratch_copy()
+        rec = {"id": ident}
+        try:
+            if base_failed is None:
+                _, base_failed = run_suite(scratch)
+            ap_ = subprocess.run(["git", "apply", "--unsafe-paths", "--directory", scratch, os.path.join(d, "patch.diff")], cwd="/", capture_output=True, text=True)
+            if ap_.returncode != 0:
+                rec["apply"] = "FAILED " + ap_.stderr[-200:]
+                print(json.dumps(rec), flush=True)
+                continue
+            summ, failed = run_suite(scratch)
+            rec["suite_same_as_baseline"] = failed == base_failed and BASELINE_SUMMARY in summ
+            sc = os.path.join(d, "selfcheck.py")
+            if os.path.exists(sc):
+                rec["selfcheck_rc"] = run_demo(scratch, sc)[0]
+            for prop in ("C10", "C01", "C17"):
+                rc, cls, dt, out = run_check(prop, scratch, args.runs, args.tier)
+                rec[prop] = "silent" if rc == 0 else f"ALARM rc={rc} {cls}"
+                if rc != 0:
+                    alarms += 1
+                    rec[prop + "_tail"] = "\n".join(ln[:700] for ln in out.splitlines() if ln.startswith("{") or "VIOLATION" in ln or "HARNESS" in ln)[:2500]
+                    # keep the replay for triage
+                    for ln in out.splitlines():
+                        if ln.startswith("VIOLATION"):
+                            src = ln.split("replay=")[1].strip()
+                            dst = os.path.join("/tmp/vt0", f"{ident}-{prop}-" + os.path.basename(src))
+                            try:
+                                shutil.copy(src, dst)
+                                rec[prop + "_replay"] = dst
+                            except Exception:  # noqa: BLE001
+                                pass
+            print(json.dumps(rec), flush=True)
+        finally:
+            shutil.rmtree(scratch, ignore_errors=True)
+    print("benign evaluation:", "ALARMS: %d" % alarms if alarms else "all silent")
+    return 1 if alarms else 0
+
+
 def main():
     ap = argparse.ArgumentParser()
     ap.add_argument("--src")
@@ -77,7 +125,10 @@ def main():
     ap.add_argument("--runs", type=int)
     ap.add_argument("--tier", default="quick")
     ap.add_argument("--baseline-failed", default=None)
+    ap.add_argument("--benign", action="store_true", help="the changes preserve the property: every check must stay silent")
     args = ap.parse_args()
+    if args.benign:
+        return benign(args)
     items = []
     if args.recheck:
         for name in sorted(os.listdir(args.recheck)):
